@@ -164,7 +164,9 @@ async def _caller(sim, cspec, cmds, rec):
     elif kind == "seq":
         rec["closed"] = False
         prog = []
-        r = await d.run_sequence(_sequence(sim, cspec, cmds, rec), progress=prog.append)
+        gen = _sequence(sim, cspec, cmds, rec)
+        rec["_gen"] = gen
+        r = await d.run_sequence(gen, progress=prog.append)
         rec["returned"] = r
         rec["progress"] = len(prog)
     elif kind == "txn":
@@ -282,6 +284,12 @@ def run(case, hooks=None):
                 rec["_exc"] = e
             else:
                 rec["status"] = "ok"
+        import inspect
+        for rec in recs:
+            if "_gen" in rec:
+                # GEN_CREATED: never started (caller cancelled while waiting for the lock); GEN_CLOSED: closed;
+                # GEN_SUSPENDED: abandoned half-way - its finally blocks never ran
+                rec["gen_state"] = inspect.getgeneratorstate(rec.pop("_gen"))
         obs["callers"] = recs
         obs["wire"] = [w for w in sim.gw.wire]
         obs["tags"] = {"%d:%d" % k: v for k, v in expected_tag.items()}
